@@ -78,10 +78,13 @@ pub fn value(t: &mut Tape, n: usize, radix: u32) -> (Limbs, &'static str) {
             while imax < 2 * n as u32 + 2 && (&q * rpow(radix, (imax + 1) * batch(radix) as u32)).bits() <= bits {
                 imax += 1;
             }
-            let i = match t.weighted(&[2, 3, 2]) {
+            // i = 0: the value itself has its top limb at the divisor (the state a "skip the top limb"
+            // shortcut before the division loop looks at; seeded change C17-J of round 5)
+            let i = match t.weighted(&[2, 3, 2, 2]) {
                 0 => 1,
                 1 => imax,
-                _ => t.u32_in(1, imax),
+                2 => t.u32_in(1, imax),
+                _ => 0,
             };
             let d = rpow(radix, i * batch(radix) as u32);
             let r = match t.weighted(&[2, 1, 2]) {
